@@ -44,9 +44,15 @@ for sid in ids:
     place = meta.get("demo_place")
     if not place: print(sid, "no demo_place"); continue
     reset()
-    for src, dst in place["files"].items():
+    for src, dst in place.get("files", {}).items():
         os.makedirs(os.path.dirname(os.path.join(WT, dst)), exist_ok=True)
         shutil.copy(os.path.join(d, src), os.path.join(WT, dst))
+    for mf, spec in place.get("insert", {}).items():
+        txt = open(os.path.join(WT, mf)).read()
+        marker = spec["before"]
+        if marker not in txt: print(sid, "marker not found in", mf); continue
+        txt = txt.replace(marker, open(os.path.join(d, spec["file"])).read() + "\n" + marker, 1)
+        open(os.path.join(WT, mf), "w").write(txt)
     for mf, line in place.get("append", {}).items():
         with open(os.path.join(WT, mf), "a") as f: f.write("\n" + line + "\n")
     t0 = time.time()
